@@ -51,3 +51,17 @@ def install_bytesio(reg):
     reg.method_models[("BytesIO", "tell")] = m_tell
     reg.method_models[("BytesIO", "seek")] = m_seek
     reg.method_models[("BytesIO", "read")] = m_read
+
+
+# ---------------------------------------------------------------- total clock --
+def m_perf_counter(ex, st, args, kwargs, node):
+    """time.perf_counter()/time.time(): ASSUMED total, returns some float (nondeterministic)."""
+    from pyvc.values import VReal
+    st.ghost["nondet"] = st.ghost.get("nondet", ()) + (f"{ex.loc(node)} clock",)
+    return [(st, VReal(z3.Real(fresh_name("clock"))))]
+
+
+def install_clock(reg):
+    reg.ext_models["time.perf_counter"] = m_perf_counter
+    reg.ext_models["time.time"] = m_perf_counter
+    reg.ext_models["time.monotonic"] = m_perf_counter
